@@ -87,6 +87,10 @@ type c17Case struct {
 	Weights    []float64 `json:"weights,omitempty"`
 	RowPerm    []int     `json:"rowperm,omitempty"`
 	ColPerm    []int     `json:"colperm,omitempty"`
+	// Prior: before the model of the case is built, ANOTHER model object of the same matrix with the other
+	// frequency setting (and then one with the same setting) is initialised on an alignment of skewed
+	// composition and computes a matrix; nothing of it may show in the case's distances
+	Prior bool `json:"prior_model,omitempty"`
 }
 
 func (cs c17Case) cfgKey() string {
@@ -338,6 +342,9 @@ type c17Checker struct {
 }
 
 func (k *c17Checker) viol(clause, desc string) {
+	if k.cs.Prior {
+		clause = "after-another-model-object/" + clause // a history case: replays on its own
+	}
 	k.c.Violation(c17Sigp+clause, fmt.Sprintf("%s: case %s", desc, jsonStr(k.cs)), k.cs)
 }
 
@@ -360,6 +367,15 @@ func (k *c17Checker) exec(seqs []string, w []float64) *c17Res {
 	var dist *mat.Dense
 	stage := "NewProtDistModel"
 	pn, msg := mc.Guard(func() {
+		if cs.Prior {
+			if pal, perr := mkAlign(align.AMINOACIDS, namedRows("WWWWCCRA", "WWWCCCRR", "WCWWCCAA")); perr == nil {
+				for _, mf := range []bool{!cs.ModelFreqs, cs.ModelFreqs} {
+					if pm, e := protein.NewProtDistModel(cs.Model, mf, cs.Alpha > 0, cs.Alpha, cs.RmGaps); e == nil && pm.InitModel(pal, nil) == nil {
+						pm.MLDist(pal, nil)
+					}
+				}
+			}
+		}
 		if m, err = protein.NewProtDistModel(cs.Model, cs.ModelFreqs, cs.Alpha > 0, cs.Alpha, cs.RmGaps); err != nil {
 			return
 		}
@@ -908,6 +924,38 @@ func c17Tasks(tier string) []mc.Task {
 			}
 		}})
 	}
+	// weights together with gap-site removal on three columns: a removed column in front of columns of
+	// different weights (the weight of a column travels with the column, not with its rank among the kept ones)
+	for _, model := range c17Models {
+		model := model
+		ts = append(ts, mc.Task{Name: fmt.Sprintf("weights-rmgaps#%s", c17ModelNames[model]), Run: func(c *mc.Ctx) {
+			for _, mf := range []bool{true, false} {
+				for _, ga := range c17Alphas {
+					if ga != 0 && ga != 1 && tier != "thorough" {
+						continue
+					}
+					cfg := c17Case{Model: model, ModelFreqs: mf, Alpha: ga, RmGaps: true}
+					forEachAlignment("AR-", 2, 3, func(seqs []string) bool {
+						if strings.Contains(seqs[0]+seqs[1], "-") {
+							c17Orbit(c, cfg, seqs, true)
+						}
+						return !c.Expired()
+					})
+				}
+			}
+		}})
+		// another model object of the same matrix served before (other frequency setting, skewed data)
+		ts = append(ts, mc.Task{Name: fmt.Sprintf("prior-model#%s", c17ModelNames[model]), Run: func(c *mc.Ctx) {
+			for _, mf := range []bool{true, false} {
+				for _, rm := range []bool{false, true} {
+					forEachAlignment("ARW", 2, 2, func(seqs []string) bool {
+						c17Check(c, c17Case{Seqs: seqs, Model: model, ModelFreqs: mf, RmGaps: rm, Prior: true})
+						return !c.Expired()
+					})
+				}
+			}
+		}})
+	}
 	return ts
 }
 
@@ -964,7 +1012,7 @@ func init() {
 	mc.Register(&mc.Prop{
 		ID:    "C17",
 		Level: "exploration",
-		Rule: "bounded-exhaustive enumeration of protein.NewProtDistModel + InitModel + MLDist on a lattice. Configurations: all 7 empirical models (LG, JTT, WAG, Dayhoff, MtREV, HIVb, AB) x {model, empirical} frequencies x gamma {off, alpha 0.5, 1, 2} x gap-site removal {off, on}. " +
+		Rule: "(also: all 2x3 alignments over {A,R,-} holding a gap, gap-site removal on, weights = every arrangement of (1,2,3); all 2x2 alignments over {A,R,W} computed after another model object of the same matrix, with the other and then the same frequency setting, served on skewed data;) bounded-exhaustive enumeration of protein.NewProtDistModel + InitModel + MLDist on a lattice. Configurations: all 7 empirical models (LG, JTT, WAG, Dayhoff, MtREV, HIVb, AB) x {model, empirical} frequencies x gamma {off, alpha 0.5, 1, 2} x gap-site removal {off, on}. " +
 			"Inputs, quick tier: every alignment of " + c17BoundText("quick") + ". Thorough tier: " + c17BoundText("thorough") + ". " +
 			"Every input is executed once (a fresh model per execution) and its matrix is compared with the matrix of its smallest row/column rearrangement, so that every row order and every column order (weights travelling with their columns) of every alignment is covered; symmetries of an alignment (equal rows, equal columns) are checked on its own matrix. " +
 			"Clauses per matrix: square of the right size, no NaN, |d_ii| <= 1e-6, |d_ij - d_ji| <= 1e-6, 0 <= d_ij <= 20 (exact), d_ij <= 1e-6 when no column holds two different unambiguous residues, " +
